@@ -75,7 +75,9 @@ Record wiring := mkwiring {
   w_csources : list csrc;               (* parse_known_args: config sources applied before set-up *)
   w_parse_nm : nmode;                   (* parse(): default nested_mode *)
   w_parser_nm : nmode;                  (* ArgumentParser(): default nested_mode *)
-  w_reroot : list nmode                 (* set_defaults re-roots the file under the (single) destination for these modes *)
+  w_reroot : list nmode;                (* set_defaults re-roots the file under the (single) destination for these modes *)
+  w_enum_named_if_not_none : bool;      (* get_arg_options, enum arm: the default is named `if self.default is not None` (true) / `if self.default` (false) *)
+  w_member_passthrough : bool           (* parse_enum: a value that already is a member is returned as it is *)
 }.
 
 Fixpoint assoc {A} (k : string) (l : list (string * A)) : option A :=
@@ -211,7 +213,8 @@ Section WithFacts.
   Definition as_argparse_default (t : ty) (d : value) : value :=
     if enum_default_as_name
     then match t, d with
-         | TEnum ms, VEnum m => if is_falsy_member E ms m then d else VStr m      (* `if self.default:` *)
+         | TEnum ms, VEnum m =>      (* `if self.default is not None:` (every member) / `if self.default:` (truthy members only) *)
+             if negb (w_enum_named_if_not_none W) && is_falsy_member E ms m then d else VStr m
          | _, _ => d
          end
     else d.
@@ -224,13 +227,14 @@ Section WithFacts.
                 | ABoolFlag => match str2bool s with Some b => Ok (VBool b) | None => Err (Exit 2) end
                 end
     | VEnum m =>
-        (* a member of a (str, Enum) class IS a str: it is passed through type= like any str default.  type=str (plain Enum field)
-           gives str(member) = "Class.NAME", never a member name; the by-name converter of an Optional[Enum] field looks the member's
-           VALUE up among the names and fails (values are assumed not to coincide with names) *)
+        (* a member of a (str, Enum) class IS a str: it is passed through type= like any str default.  type=str (plain Enum field, reached
+           only by a member that was not turned into its name) gives str(member) = "Class.NAME", never a member name; the by-name
+           converter of an Optional[Enum] field returns a member as it is (w_member_passthrough), or else looks the member's VALUE up
+           among the names and fails (values are assumed not to coincide with names) *)
         if is_str_member E t
         then match t with
              | TEnum _ => Ok (VStr ("." ++ m))
-             | _ => Err (conv_err enum_miss_cls)
+             | _ => if w_member_passthrough W then Ok d else Err (conv_err enum_miss_cls)
              end
         else Ok d
     | _ => Ok d
